@@ -239,7 +239,7 @@ func (w *World) absorb() {
 			if c.Status == 200 {
 				id := c.Hdr.Get("Lambda-Runtime-Aws-Request-Id")
 				d := Delivery{Step: c.EndStep, At: c.EndAt, ReqID: id, Type: "invoke", Body: c.Body, Hdr: flat(c.Hdr), CallSeq: c.Seq}
-				d.Inv = w.matchInvocation(id, c.EndStep, c.EndAt)
+				d.Inv = w.matchInvocation(id, c.EndStep, c.EndAt, c.Body)
 				a.Deliveries = append(a.Deliveries, d)
 				a.CurReqID = id
 				a.CurInv = d.Inv
@@ -307,13 +307,24 @@ func (w *World) absorb() {
 
 // matchInvocation binds a request id seen by the runtime to the oldest caller
 // whose invocation has not been dispatched yet.
-func (w *World) matchInvocation(id string, step int, at time.Duration) *Invocation {
+func (w *World) matchInvocation(id string, step int, at time.Duration, body []byte) *Invocation {
 	for _, inv := range w.Invokes {
 		if inv.ReqID == id {
 			return inv // repeated poll
 		}
 	}
+	// prefer the pending caller whose payload this is (concurrent callers), else the oldest pending one
+	var pick *Invocation
 	for _, inv := range w.Invokes {
+		if !inv.Dispatched && inv.Call.Pending() && body != nil && samePayload(inv.Payload, body) {
+			pick = inv
+			break
+		}
+	}
+	for _, inv := range w.Invokes {
+		if pick != nil && inv != pick {
+			continue
+		}
 		if !inv.Dispatched && inv.Call.Pending() {
 			inv.Dispatched = true
 			inv.ReqID = id
@@ -341,4 +352,19 @@ func (d Delivery) DeadlineMs() int64 {
 
 func (d Delivery) String() string {
 	return fmt.Sprintf("delivery step=%d type=%s id=%s", d.Step, d.Type, d.ReqID)
+}
+
+func samePayload(posted, got []byte) bool {
+	if len(posted) > MaxPayload {
+		posted = posted[:MaxPayload]
+	}
+	if len(posted) != len(got) {
+		return false
+	}
+	for i := range posted {
+		if posted[i] != got[i] {
+			return false
+		}
+	}
+	return true
 }
